@@ -60,6 +60,9 @@ func vSymSummary(full bool) vSummary {
 	if full {
 		nshapes = 9
 	}
+	if m := sym.Param("memshapes", 0); m > 0 {
+		nshapes = m // 3 = none / one load / one store only
+	}
 	switch c := sym.Choose(nshapes); c {
 	case 0:
 	case 1:
